@@ -202,7 +202,7 @@ def cmp_c14(case, got):
     have = {("/".join(f["loc"]), f["kind"], f["applies_to"]) for f in got["found"]}
     desc = "files %s exclude %s watches %s" % (
         sorted("%s/%s=%s" % ("/".join(f["loc"]) or ".", f["kind"], f["lines"]) for f in case["files"]),
-        case["exclude"]["lines"] if case["exclude"]["on"] else "-", ["/".join(w) for w in case["watches"]])
+        ["%s=%s" % (f["kind"], f["lines"]) for f in case["exclude"]] or "-", ["/".join(w) for w in case["watches"]])
     for m in sorted(want - have):
         bad.append(("not found: %s %s (%s); %s" % (m[0] or ".", m[1], m[2], desc), "missing"))
     for m in sorted(have - want):
@@ -267,13 +267,13 @@ SPECS = {
     "C14": dict(
         module="Discover.tla", runner="discover", cmp=cmp_c14, seeded=True, workers=8,
         nontrivial=lambda c: any(f["lines"] for f in c["files"]),
-        cfgs=dict(quick=["Discover_one.cfg", "Discover_two.cfg", "Discover_sample.cfg"],
-                  thorough=["Discover_one.cfg", "Discover_two.cfg", "Discover_sample_big.cfg"]),
-        rule="configurations with at least one non-empty ignore file; distinct by (files with their lines, .git/info/exclude, explicit watches); every one is also explored by TLC under every directory listing order",
+        cfgs=dict(quick=["Discover_one.cfg", "Discover_origin.cfg", "Discover_two.cfg", "Discover_sample.cfg"],
+                  thorough=["Discover_one.cfg", "Discover_origin.cfg", "Discover_two.cfg", "Discover_sample_big.cfg"]),
+        rule="configurations with at least one non-empty ignore file; distinct by (files with their lines, origin-level files, explicit watches); every one is also explored by TLC under every directory listing order",
         exhaustive=False,
-        assumptions=["Discover.tla: a fixed tree (test, tests, a, .git, test/sub, tests/sub), ignore files of the three walked kinds in four directories with seven possible contents, optional .git/info/exclude, optional explicit watches",
+        assumptions=["Discover.tla: a fixed tree (test, tests, a, .git, _darcs, test/sub, tests/sub), ignore files of the three walked kinds in four directories (and inside _darcs) with seven possible contents, the origin-level files (.git/info/exclude, .bzrignore, _darcs/prefs/boring, .fossil-settings/ignore-glob, git's core.excludesFile, one explicit ignore file) alone and in contradicting pairs, optional explicit watches",
                      "the real tree is created in several directory-creation orders; the listing orders themselves are explored exhaustively on the model of the walker",
-                     "core.excludesFile in .git/config, the Bazaar/Darcs/Fossil origin files and explicit ignore files are not part of the universe"],
+                     "core.excludesFile is given as an absolute path (no ~ or %(prefix) interpolation); .hg / .bzr / .svn / .pijul / .fossil-settings metadata directories are represented by .git and _darcs"],
     ),
     "C11": dict(
         module="GlobsetVerdict.tla", runner="globset", cmp=cmp_c11, seeded=True, workers=8,
